@@ -200,6 +200,7 @@ def _serall(g, scale):
             g.emit("card %s" % y)
         g.emit("add %s %d" % (y, 12345))
         g.emit("wf %s" % y)
+        g.emit("trunc %s %s" % (x, r.choice(["readfrom", "frombuffer", "unmarshal", "readfromck"])))
         # the same bitmap through the frozen format (three writers, view)
         g.emit("frz %s" % x)
         v = g.fresh("v")
@@ -235,6 +236,30 @@ def _spec(g, scale):
         g.emit("card %s" % y)
         g.emit("toarr %s" % y)
         prev.append(y)
+    # chunk counts around the multiples of 8 (the run-flag bitset has ceil(n/8) bytes) with the run-capable cookie, both directions
+    for n in (7, 8, 9, 15, 16, 17, 24, 32, 40, 64):
+        ks = sorted(r.sample(range(65536), n))
+        conts = []
+        for j, k in enumerate(ks):
+            if j % 3 == 0:
+                conts.append((k, "R", [(10 * j, 10 * j + 5), (3000 + j, 3100 + j)]))
+            else:
+                conts.append((k, "A", [(v, v) for v in sorted(r.sample(range(65536), r.choice([1, 3, 9])))]))
+        y = g.fresh()
+        g.emit("spec %s %s %s %s" % (y, r.choice(ENTRIES), enc_stream(conts, run_cookie=True).hex(), fnv_digest(conts)))
+        g.emit("card %s" % y)
+        g.emit("ser %s" % y)          # write direction: the library's bytes for the same bitmap are read by the independent spec reading
+        g.count("spec:multiple-of-8")
+    # conformant streams into receivers that grew chunk by chunk (container counts in the gaps between their slice capacities)
+    for n0, cnts in ((45, [65, 71]), (100, [129, 143]), (200, [257, 303])):
+        for cnt in cnts:
+            y = g.fresh("u")
+            g.emit("new %s" % y)
+            g.emit("addstride %s %d 65536 %d" % (y, r.choice([0, 9]), n0))
+            conts = [(k, "A", [(v, v) for v in sorted(r.sample(range(65536), 2))]) for k in sorted(r.sample(range(65536), cnt))]
+            g.emit("spec %s %s %s %s reuse" % (y, r.choice(ENTRIES), enc_stream(conts, run_cookie=r.choice([None, True])).hex(), fnv_digest(conts)))
+            g.emit("card %s" % y)
+            g.count("spec:grown-receiver")
     # a run chunk with very many runs (the count is a 16-bit field; 32768 runs is the most a chunk can hold)
     for nr in ([16383, 16384, 20000, 32768] if scale >= 2 else [r.choice([16384, 20000, 32768])]):
         ivs = [(2 * i, 2 * i) for i in range(nr)]
